@@ -171,7 +171,7 @@ def opFull (j : Json) : Except String Json := do
   let mut shift : Float × Float := (0, 0)
   if variant == "np" then
     let k := coarseNpG M N c raw
-    out := out ++ [("peak", Json.arr #[natJ k.x0, natJ k.y0]), ("x", fl k.x), ("y", fl k.y)]
+    out := out ++ [("peak", Json.arr #[natJ k.x0, natJ k.y0]), ("x", fl k.x), ("y", fl k.y), ("cmax", fl (c k.x0 k.y0))]
     if up ≤ 1 then
       shift := (centre k.x M, centre k.y N)
       out := out ++ [("raw", Json.arr #[fl k.x, fl k.y])]
